@@ -418,7 +418,9 @@ Inductive diag :=
 | DgNonIntConst        (* enum: "can't handle non-integer constant type" *)
 | DgRestNotExists      (* rest: "rest client interface not exists" *)
 | DgSrcNotExists       (* map: "src type not exists" *)
-| DgDestNotExists.     (* map: "dest type not exists" *)
+| DgDestNotExists      (* map: "dest type not exists" *)
+| DgFileNotGo          (* ParseCommonFlags: "file must be a go file" *)
+| DgFileNotExists.     (* ParseCommonFlags: "file not exists" *)
 
 Inductive md_res := MGen | MSkip | MFatal (d : diag).
 
@@ -521,7 +523,8 @@ Fixpoint gen_loop (c : subcmd) (p : pkg) (fl : cflags) (aio : string) (fmap : li
       end
   end.
 
-Definition run (o : oracle) (c : subcmd) (fl : cflags) (p : pkg) : outcome :=
+(* LoadPackage .. Generate .. the success message, for flags that passed ParseCommonFlags *)
+Definition run_loaded (o : oracle) (c : subcmd) (fl : cflags) (p : pkg) : outcome :=
   let aio := all_in_one_file fl p in
   let confirmed :=
     if fl_specified fl then
@@ -542,4 +545,32 @@ Definition run (o : oracle) (c : subcmd) (fl : cflags) (p : pkg) : outcome :=
                         end in
           Done files' (o _ (map fst files'))
       end
+  end.
+
+(* the two checks of ParseCommonFlags on -file: filepath.Ext(file) == ".go" and
+   os.Stat(dir/file).  In the grammar the .go files of the directory are the
+   files of the package, so "exists" is membership in p_files. *)
+Definition check_file_arg (fl : cflags) (p : pkg) : option diag :=
+  if fl_file fl =? "" then None
+  else if negb (ends_with ".go" (fl_file fl)) then Some DgFileNotGo
+  else if negb (mem (fl_file fl) (map f_name (p_files p))) then Some DgFileNotExists
+  else None.
+
+Definition run (o : oracle) (c : subcmd) (fl : cflags) (p : pkg) : outcome :=
+  match check_file_arg fl p with
+  | Some d => Failed d
+  | None => run_loaded o c fl p
+  end.
+
+(* the whole front end on the argument vector (args = what follows the subcommand name) *)
+Inductive cli_out :=
+| CUsage2                 (* usage text, exit 2, nothing written *)
+| CHelp0                  (* -h: usage text, exit 0, nothing written *)
+| COut (r : outcome).
+
+Definition shoot_cli (o : oracle) (c : subcmd) (args : list string) (p : pkg) : cli_out :=
+  match parse_common c args with
+  | PUsage2 => CUsage2
+  | PExit0 => CHelp0
+  | POk fl _ => COut (run o c fl p)
   end.
